@@ -96,7 +96,7 @@ impl EventGen for LoopElement {
                 }
 
                 if !loop_var_name.is_empty() {
-                    context.set_var(&loop_var_name, &loop_var_value.to_string());
+                    context.set_limited_var(&loop_var_name, &loop_var_value.to_string())?;
                 }
 
                 let (ev_list, ev_bbox) = process_events(inner_events.clone(), context)?;
@@ -171,9 +171,9 @@ impl EventGen for ForElement {
             // TODO: should a new context be created for for loops, so
             // loop & idx vars don't leak out / override existing vars?
             for item in data_list {
-                context.set_var(&for_def.var_name, &item);
+                context.set_limited_var(&for_def.var_name, &item)?;
                 if let Some(ref idx_name) = idx_name {
-                    context.set_var(idx_name, &idx.to_string());
+                    context.set_limited_var(idx_name, &idx.to_string())?;
                 }
                 let (ev_list, ev_bbox) = process_events(inner_events.clone(), context)?;
                 gen_events.extend(&ev_list);
